@@ -154,7 +154,7 @@ type Exec struct {
 }
 
 func NewExec(sys *System, conc *Conc) *Exec {
-	return &Exec{Sys: sys, Conc: conc, Vids: map[string]string{}, Uids: map[string]string{}, Timeout: 20 * time.Second}
+	return &Exec{Sys: sys, Conc: conc, Vids: map[string]string{}, Uids: map[string]string{}, Timeout: 10 * time.Second}
 }
 
 // Req is a concrete HTTP request description.
